@@ -447,7 +447,7 @@ func traceConcStore(t *testing.T, o opts) {
 					g2.cur[fn] = 500 + round
 					wantX := fmt.Sprintf("%s#%d", fn, 500+round)
 					g2.mu.Unlock()
-					cx, cancel := context.WithTimeout(context.Background(), 5*time.Second)
+					cx, cancel := context.WithTimeout(context.Background(), 15*time.Second)
 					if err := st2.Refresh(cx); err != nil || string(st2.Secret("a").Get()) != wantA {
 						byRefreshBad++
 					}
